@@ -487,7 +487,23 @@ static void print_dump_line(void)
   printf("] root="); dump(config_root_setting(&cfg));
 }
 
+/* The whole command loop runs on a thread with a 1 GiB stack: libconfig's writer, destructor and clear recurse once per
+ * nesting level, and under ASan a 5000-level tree (the deepest the parser admits, and what the deep-nesting cases build
+ * through the API) comes within a few per cent of the default 8 MiB main stack - a margin that depends on the
+ * environment.  The stack limit of the process must not decide the verdict of a check. */
+#include <pthread.h>
+static int real_main(int argc, char **argv);
+struct main_args { int argc; char **argv; int rc; };
+static void *main_thread(void *p) { struct main_args *a = p; a->rc = real_main(a->argc, a->argv); return NULL; }
 int main(int argc, char **argv)
+{
+  struct main_args a = { argc, argv, 0 }; pthread_t th; pthread_attr_t at;
+  pthread_attr_init(&at); pthread_attr_setstacksize(&at, (size_t)1 << 30);
+  if (pthread_create(&th, &at, main_thread, &a) != 0) return real_main(argc, argv);
+  pthread_join(th, NULL);
+  return a.rc;
+}
+static int real_main(int argc, char **argv)
 {
   char *line = NULL; size_t cap = 0; ssize_t n;
   if (argc > 1 && chdir(argv[1]) != 0) { perror("chdir"); return 2; }
